@@ -181,7 +181,7 @@ PROPS = {
                                      "registrations concurrent with calls, function objects fetched earlier, per-thread conversion caches",
                                      "const-ness of the argument is not part of the entry rules (property C07's subject); it is used only to decide which calls MUST succeed",
                                      "function bodies that themselves throw bad_boxed_cast (which dispatch treats as 'try the next overload') are not generated"],
-        expected_probes=["probe_entered_through_base_conversion", "probe_entered_through_conversion_or_catch_all", "casts_succeeded", "casts_refused", "calls_refused"],
+        expected_probes=["probe_entered_through_base_conversion", "probe_entered_through_conversion_or_catch_all", "casts_succeeded", "casts_refused", "calls_refused", "probe_entered_body_raised_bad_cast"],
         **two(40, 420,
               {"asan": {"workers": 8}, "plain": {"workers": 4}, "tsan": {"workers": 4}},
               {"asan": {"workers": 8}, "plain": {"workers": 4}, "tsan": {"workers": 4}}),
